@@ -371,7 +371,8 @@ def _Solve_Axb(
         x, output = sla.gmres(A, b.toarray(), x0, maxiter=None)
 
     elif solver == "lgmres":
-        x, output = sla.lgmres(A, b.toarray(), x0, maxiter=None)
+        # lgmres has no "None = default" for maxiter (it is used as an int); keep scipy's default
+        x, output = sla.lgmres(A, b.toarray(), x0)
 
     elif solver == SolverType.lsq_linear:
         # constrained minimization
